@@ -11,6 +11,18 @@ SECTION 0 (generic, used by C17t as well)
   `C16t.mul_any`): `(len − 1)·2^-99`.
 * `restrictedM_bound` : `|val (restrictedM cs x) − x·(1 + t·P(t))| ≤ |x|·(len + 2)/2^99 + 2^-949`, `t = x²`.
 * `restrictedM_deep` : for `|x| ≤ 2^-540` the result is `x` exactly (given the kernel fact `InnerZero cs`).
+
+MAIN RESULTS (tan)
+* `restricted_tan_real` : valid `|r| ≤ 0.786` ⇒ `|restricted_tan r − tan r| ≤ 5·2^-53·|tan r| + 2^-949`.
+* `tan_bound` : valid `x`, `|x| ≤ 2^20`, `|cos x| ≥ 2^-69` ⇒ the result is a valid pair and
+      `|tan(x) − tan x| ≤ 2^-50·|tan x| + 2^-80·(1 + tan² x)`
+  (even quadrants `restricted_tan r`; odd quadrants `−1.0 / restricted_tan r` with the `16u²` division;
+  the second term is the propagated reduction error `2^-81·(1 + tan²)`).
+  `C16_tan` (the property's form with `max(|tan x|, 2^-30)`), `tan_bound_of_model_cos` (the pole hypothesis checked on
+  the model's own cosine), `tan_small_bound` (`|x| < FRAC_PI_4`: no hypothesis).
+* FINDING `tan_pole_counterexample`: `tan(consts::FRAC_PI_2) = (NaN, NaN)` in the model (reduced argument exactly 0,
+  then `−1.0 / 0`); the pole hypothesis of `tan_bound` cannot be dropped and the property as stated
+  ("for valid x with |x| ≤ 2^20") fails there.
 -/
 import TFV.Lemmas.ATrigBound
 import TFV.Properties.C16t
@@ -731,13 +743,29 @@ example :
         + 1 / 2 ^ 80 * (1 + Real.tan (rval ⟨f64lit 0x408f400000000000, F64.zero⟩) ^ 2) :=
   (tan_bound_of_model_cos (by decide +kernel) (by decide +kernel) (by decide +kernel) (by decide +kernel)).2
 
+/-- **C16 (tan), unreduced arguments**: for valid `|x| < FRAC_PI_4` no pole hypothesis is needed -/
+theorem tan_small_bound {x : TwoFloat} (hv : x.Valid) (hw : x.WF) (hsm : |val x| < val consts.FRAC_PI_4) :
+    (TwoFloat.tan x).Valid ∧
+    |rval (TwoFloat.tan x) - Real.tan (rval x)|
+      ≤ 1 / 2 ^ 50 * |Real.tan (rval x)| + 1 / 2 ^ 80 * (1 + Real.tan (rval x) ^ 2) := by
+  have hhi : |val x| ≤ 393 / 500 := by
+    have := P_facts.2.2.2.2.2.2
+    have h2 := P_facts.2.2.2.1
+    linarith
+  refine tan_bound hv hw (le_trans hhi (by norm_num)) ?_
+  have hr : |rval x| ≤ 393 / 500 := by have := rval_le hhi; push_cast at this; exact this
+  have hc := cos_ge_small (le_trans hr (by norm_num))
+  rw [abs_of_pos (by linarith)]
+  refine le_trans ?_ hc
+  norm_num
+
 /-! ## 4. FINDING: the floor of C16 fails at the poles
 
 `x = consts::FRAC_PI_2` is a valid in-range argument.  The reduction gives the quotient `1` and the remainder
 `x − 1·FRAC_PI_2 = 0` EXACTLY (the same double-double constant is subtracted), so `restricted_tan 0 = 0` and
 `−1.0 / 0` is NaN: `tan(FRAC_PI_2) = (NaN, NaN)`.  The true value `tan(FRAC_PI_2) = cot(π/2 − FRAC_PI_2)` is a
-finite real of magnitude about `2^108` (`|π/2 − FRAC_PI_2| ≤ 2^-106`), and the right-hand side of the property is
-finite; a NaN result violates it.  The same happens at every `x = q ⊗ FRAC_PI_2` (`q` odd) that the double-double
+finite real of magnitude `2^109` (`tan_at_pole`: `2^108 ≤ |tan x| ≤ 2^110`, from `FRAC_PI_2 − π/2 ∈ [2^-110, 2^-109]`),
+and the right-hand side of the property is finite; a NaN result violates it.  The same happens at every `x = q ⊗ FRAC_PI_2` (`q` odd) that the double-double
 product represents, e.g. `3·FRAC_PI_2`. -/
 
 theorem tan_pole_counterexample :
@@ -756,5 +784,50 @@ theorem cos_at_pole : |Real.cos (rval consts.FRAC_PI_2)| ≤ 1 / 2 ^ 106 := by
   rw [e]
   refine le_trans Real.abs_sin_le_abs ?_
   rw [abs_sub_comm]; exact h
+
+theorem pole_dist_check : (1 : ℚ) / 2 ^ 110 ≤ val consts.FRAC_PI_2 - ConstBounds.piHi / 2 ∧
+    val consts.FRAC_PI_2 - ConstBounds.piLo / 2 ≤ 1 / 2 ^ 109 := by decide +kernel
+
+/-- `FRAC_PI_2` lies ABOVE `π/2`, by between `2^-110` and `2^-109` -/
+theorem pole_dist : 1 / 2 ^ 110 ≤ rval consts.FRAC_PI_2 - Real.pi / 2 ∧
+    rval consts.FRAC_PI_2 - Real.pi / 2 ≤ 1 / 2 ^ 109 := by
+  obtain ⟨h1, h2⟩ := pole_dist_check
+  obtain ⟨p1, p2⟩ := ConstBounds.pi_encl
+  have c1 := (Rat.cast_le (K := ℝ)).2 h1
+  have c2 := (Rat.cast_le (K := ℝ)).2 h2
+  unfold rval
+  push_cast at c1 c2 ⊢
+  constructor <;> linarith
+
+/-- **the true value at the pole argument is a finite real of magnitude `2^109`**:
+`2^108 ≤ |tan (FRAC_PI_2)| ≤ 2^110`, whereas the model returns NaN (`tan_pole_counterexample`) -/
+theorem tan_at_pole : 2 ^ 108 ≤ |Real.tan (rval consts.FRAC_PI_2)| ∧
+    |Real.tan (rval consts.FRAC_PI_2)| ≤ 2 ^ 110 := by
+  obtain ⟨d1, d2⟩ := pole_dist
+  set d := rval consts.FRAC_PI_2 - Real.pi / 2 with hd
+  have hd0 : 0 < d := lt_of_lt_of_le (by positivity) d1
+  have e : rval consts.FRAC_PI_2 = Real.pi / 2 - -d := by rw [hd]; ring
+  rw [e, Real.tan_pi_div_two_sub, Real.tan_neg, inv_neg, abs_neg]
+  have hpi := Real.one_le_pi_div_two
+  have hsm : d ≤ 1 / 2 := le_trans d2 (by norm_num)
+  have ht1 : d ≤ Real.tan d := Real.le_tan hd0.le (by linarith)
+  have hc := cos_ge_small (r := d) (by rw [abs_of_pos hd0]; linarith)
+  have hcpos : 0 < Real.cos d := by linarith
+  have ht2 : Real.tan d ≤ 2 * d := by
+    rw [Real.tan_eq_sin_div_cos, div_le_iff₀ hcpos]
+    have := Real.sin_le hd0.le
+    nlinarith
+  have htpos : 0 < Real.tan d := lt_of_lt_of_le hd0 ht1
+  rw [abs_of_pos (inv_pos.2 htpos)]
+  constructor
+  · rw [le_inv_comm₀ (by positivity) htpos]
+    refine le_trans ht2 ?_
+    have : 2 * d ≤ 2 * (1 / 2 ^ 109) := by linarith
+    refine le_trans this ?_
+    norm_num
+  · rw [inv_le_comm₀ htpos (by positivity)]
+    refine le_trans ?_ ht1
+    refine le_trans ?_ d1
+    norm_num
 
 end C16u
